@@ -8,7 +8,8 @@ VERIF = os.path.dirname(os.path.dirname(os.path.dirname(os.path.abspath(__file__
 CHECKS = {
     'C01': ('E1', 'stateless bounded-deviation exhaustive exploration of the implementation (edit BFS over inputs x options x clock)',
             'All inputs within 1 edit (thorough: 2) of every seed over a class-complete alphabet, all short strings, '
-            '17 non-string values, each single non-default option and every clock answer of the menu are executed on '
+            'synthesised states (dates, registry entries, code literals, other lengths), 20 non-string values, each non-default option '
+            '(and option combination) and every clock answer of the menu are executed on '
             'the real validate()/is_valid(); the error contract is an invariant of every explored state.',
             'Inputs further than the deviation bound from every seed are not explored; corpus of seeds from docstrings/doctests.',
             'DESIGN.md 2/C01'),
@@ -89,9 +90,14 @@ CHECKS = {
             'All histories of length <=2 over a focus menu with colliding cache keys/registry names (with and without in-place mutation '
             'of the previous result), call/mutate/call for every container-returning function, ordered module pairs, clock-advance '
             'histories; two threads racing on first use of every cache (all interleavings at line granularity up to 2 preemptions) and '
-            'on module import (1 preemption); every observation equals the pristine observation.',
-            'Fresh interpreter modelled by purging stdnum modules (cross-checked against real subprocesses); 2 threads; scheduling points '
-            'only in the cache functions / module top-level code.', 'DESIGN.md 2/C13'),
+            'on module import (1 preemption); per module: same-function and cross-function histories on documented numbers and near '
+            'misses, option-order histories incl. failing calls, batteries run twice and against a freshly loaded module, registry '
+            'sibling pairs; first-use, steady-state and full-working-set two-thread schedules of every function that still changes '
+            'module-level state (line granularity <=2 preemptions, bytecode granularity 1 preemption); container-returning calls under '
+            'hash seeds 0-3 in fresh interpreters; every observation equals the pristine observation.',
+            'Fresh interpreter modelled by purging stdnum modules (cross-checked against real subprocesses); 2 threads (3 in one thorough '
+            'harness); scheduling points in the cache functions / module top-level code / the functions naming the state that changed; '
+            'the clock seam is process-wide during a history.', 'DESIGN.md 2/C13, 8.4-8.7'),
     'C18': ('E4', 'exhaustive enumeration of requests and request histories / first-request schedules on the real WSGI callable',
             'Both modes x query-string classes x every seed of every module x hostile single edits x markup marker splices; each focus '
             'request fresh and after every other focus request; two first requests under the scheduler; status 200, exact format list '
